@@ -508,6 +508,8 @@ class Diverge(Exception):
 
 
 import re as _re
+# library operations that multiply their operands (or components of them) with one another
+PRODUCT_OPS = _re.compile(r'(::mul$|::mul_assign$|::dot$|::cross$|::determinant$|::length_squared$|::length$|::distance_squared$|::distance$|::project_onto$|::powi$|::normalize$)')
 # library calls that move/borrow/select values without computing with them
 NONOBSERVING = _re.compile(r'(::clone$|::into$|::from$|::deref(_mut)?$|::index(_mut)?$|::as_ref$|::as_mut$|::as_slice$|::len$|^std::option::Option::|^std::boxed::|::new_uninit$|^std::vec::Vec::<T>::new$|glam::DVec3::new$|glam::DVec3::from_array$|glam::DVec3::to_array$)')
 
@@ -527,6 +529,9 @@ class Interp:
         self.unknown_calls = {}
         self.unroll_limit = 0         # >0: try concrete unrolling of loops with constant trip count first
         self.unrolling = 0
+        self.track_products = False   # record (callee, line, operand values) of multiplicative operations (conditioning analysis)
+        self.products = []
+        self.unroll_allow_returns = False
         self.track_observed = False   # record which input symbols are consumed by arithmetic / library / opaque calls
         self.observed = set()
         self.loops = []           # loop records (see run_loop)
@@ -766,51 +771,64 @@ class Interp:
         return out
 
     def try_unroll(self, st, cfg, header, L, exits, J, stops, active_loops):
-        """Concrete unrolling of a loop whose exit decisions constant-fold (e.g. `for i in 0..3`): iterations are
-        evaluated one after the other on the real abstract state (no havoc).  Gives up (returns None, state restored)
-        as soon as an iteration does not end in exactly one state, or after `unroll_limit` iterations."""
+        """Bounded concrete unrolling: iterations are evaluated one after the other on the real abstract state (no
+        havoc).  States leaving the loop in an iteration are continued to the loop's continuation; states returning
+        to the header are merged and start the next iteration.  Succeeds when no state returns to the header any
+        more (e.g. `for i in 0..3` with a constant range); gives up (returns None, everything restored) after
+        `unroll_limit` iterations or when a return happens inside the body and `unroll_allow_returns` is off."""
         save = self.snap(st)
         g0 = st.guard
         nev = len(self.events)
+        nruns = len(self.closure_runs)
         nret = [len(x) for x in self._returns]
         inner_stops = frozenset(exits | {header})
         self.unrolling += 1
+        out = {}
+        atJ = []
+        ok = False
         try:
             for it in range(self.unroll_limit + 1):
                 r = self.run(st, cfg, header, inner_stops, first=True, active_loops=active_loops + (header,))
-                states = [(k, g, s_) for k, lst in r.items() for g, s_ in lst]
-                if len(states) != 1 or [len(x) for x in self._returns] != nret:
+                if [len(x) for x in self._returns] != nret and not self.unroll_allow_returns:
                     break
-                k, g, s_ = states[0]
-                self.restore(st, s_)
-                st.guard = g0
-                if k == header:
-                    continue
-                if k in exits:
-                    # leave the loop: evaluate from the exit to the continuation like run_loop does
-                    out = {}
-                    if k == J or k in stops:
-                        if k == J and J not in stops:
-                            out['__continue__'] = J
-                        else:
-                            out.setdefault(k, []).append((g0, self.snap(st)))
-                        return out
-                    sub = frozenset(stops | ({J} if J is not None else set()))
-                    r2 = self.run(st, cfg, k, sub, first=False, active_loops=active_loops)
-                    atJ = []
-                    for sk, lst in r2.items():
-                        if sk == J:
-                            atJ.extend(lst)
-                        else:
-                            out.setdefault(sk, []).extend(lst)
+                hs = r.pop(header, [])
+                for k, lst in r.items():
+                    if k not in exits:
+                        out.setdefault(k, []).extend(lst)
+                        continue
+                    for g, s_ in lst:
+                        self.restore(st, s_)
+                        st.guard = g
+                        if k == J:
+                            atJ.append((g, s_))
+                            continue
+                        if k in stops:
+                            out.setdefault(k, []).append((g, s_))
+                            continue
+                        sub = frozenset(stops | ({J} if J is not None else set()))
+                        r2 = self.run(st, cfg, k, sub, first=False, active_loops=active_loops)
+                        for sk, l2 in r2.items():
+                            if sk == J:
+                                atJ.extend(l2)
+                            else:
+                                out.setdefault(sk, []).extend(l2)
+                if not hs:
+                    ok = True
+                    break
+                if len(hs) == 1:
+                    self.restore(st, hs[0][1])
+                    st.guard = hs[0][0]
+                else:
+                    self.restore(st, self.merge_snaps(hs, len(g0)))
                     st.guard = g0
-                    if J is not None and atJ and J not in stops:
-                        self.restore(st, self.merge_snaps(atJ, len(g0)))
-                        out['__continue__'] = J
-                    elif J is not None and atJ:
-                        out.setdefault(J, []).extend(atJ)
-                    return out
-                break
+            if ok:
+                st.guard = g0
+                if J is not None and atJ and J not in stops:
+                    self.restore(st, self.merge_snaps(atJ, len(g0)))
+                    out['__continue__'] = J
+                elif J is not None and atJ:
+                    out.setdefault(J, []).extend(atJ)
+                return out
         except AnalysisIncomplete:
             pass
         finally:
@@ -819,6 +837,7 @@ class Interp:
         self.restore(st, save)
         st.guard = g0
         del self.events[nev:]
+        del self.closure_runs[nruns:]
         for x, n in zip(self._returns, nret):
             del x[n:]
         return None
@@ -1274,6 +1293,8 @@ class Interp:
         base = op.replace('WithOverflow', '').replace('Unchecked', '')
         if self.track_observed:
             self.observe((a, b))
+        if self.track_products and base == 'Mul':
+            self.products.append(('binop:Mul', None, [a, b], self.stack[-1].body if self.stack else None))
         try:
             a2, b2 = as_rf(a), as_rf(b)
         except TypeError:
@@ -1362,6 +1383,8 @@ class Interp:
         # 1. semantics table
         h = T.lookup(callee, t)
         if h is not None:
+            if self.track_products and PRODUCT_OPS.search(callee):
+                self.products.append((callee, t.get('line'), [frozen(a) for a in args], st.body))
             r = h(self, st, t, args, ret_ty)
             if r is not NotImplemented:
                 if self.track_observed and not NONOBSERVING.search(callee):
